@@ -36,6 +36,31 @@ class _T(object):
         self.started = False
 
 
+class _PoolThread(object):
+    """A persistent OS thread that runs one body per execution (thread creation is
+    surprisingly expensive when 16 check processes do it at once)."""
+
+    def __init__(self):
+        self.job = None
+        self.go = threading.Semaphore(0)
+        self.done = threading.Semaphore(0)
+        self.thread = threading.Thread(target=self._loop, daemon=True)
+        self.thread.start()
+
+    def _loop(self):
+        while True:
+            self.go.acquire()
+            job = self.job
+            self.job = None
+            try:
+                job()
+            finally:
+                self.done.release()
+
+
+_IDLE = []
+
+
 class Sched(object):
     """One execution under a given choice prefix.
 
@@ -44,7 +69,8 @@ class Sched(object):
     so this is equivalent to a central controller but needs no context switch when
     the running thread simply continues)."""
 
-    def __init__(self, prefix=(), horizon=5000, exec_timeout=120):
+    def __init__(self, prefix=(), horizon=5000, exec_timeout=120, reuse_threads=True):
+        self.reuse_threads = reuse_threads
         self.prefix = list(prefix)
         self.threads = []
         self.ctl = threading.Semaphore(0)
@@ -80,8 +106,14 @@ class Sched(object):
                 t.finished = True
                 if not self.aborted:
                     self._handoff(t)
-        t.thread = threading.Thread(target=body, daemon=True)
-        t.thread.start()
+        if self.reuse_threads:
+            w = _IDLE.pop() if _IDLE else _PoolThread()
+            t.thread = w
+            w.job = body
+            w.go.release()
+        else:
+            t.thread = threading.Thread(target=body, daemon=True)
+            t.thread.start()
         return t.tid
 
     def me(self):
@@ -171,7 +203,12 @@ class Sched(object):
             self._abort()
         else:
             for t in self.threads:
-                t.thread.join(5)
+                if self.reuse_threads:
+                    if not t.thread.done.acquire(timeout=10):
+                        raise InfraError("a thread body did not return")
+                    _IDLE.append(t.thread)
+                else:
+                    t.thread.join(5)
         self.current = None
         return self
 
@@ -181,7 +218,12 @@ class Sched(object):
             if not t.finished:
                 t.sem.release()
         for t in self.threads:
-            t.thread.join(0.2)
+            if self.reuse_threads:
+                # a body that comes back is reusable; one that stays stuck is abandoned
+                if t.thread.done.acquire(timeout=0.2):
+                    _IDLE.append(t.thread)
+            else:
+                t.thread.join(0.2)
 
     def preemptions(self):
         """p[i] = number of preemptive switches among decisions < i."""
